@@ -69,10 +69,10 @@ class Builder:
         run(['clang++-14'] + CXXFLAGS + inc + ['-I', HARNESS, '-include', os.path.join(SUPPORT, 'noextern.h'), '-S', '-emit-llvm',
              os.path.join(HARNESS, harness), '-o', out] + ['-D' + d for d in defines] + ['-DVERIF_REPO_SRC="%s"' % SRC, '-DVERIF_NINJA_CC="%s/ninja.cc"' % SRC])
         s.ll[key] = out; return out
-    def link(s, name, harness, units, defines=(), stubs=True, iquote=False, entry='harness_main', support=()):
+    def link(s, name, harness, units, defines=(), stubs=True, iquote=False, entry='harness_main', support=(), stubs_defines=()):
         """-> path of the linked, internalized module for one job"""
         lls = [s.harness_ll(harness, defines, iquote)] + s.units_ll(units) + [s.support_ll('libstdcxx_models.c')]
-        if stubs: lls.append(s.support_ll('stubs.cc'))
+        if stubs: lls.append(s.support_ll('stubs.cc', tuple(stubs_defines)))
         for x in support: lls.append(s.support_ll(x))
         linked = os.path.join(s.dir, name + '.linked.ll'); final = os.path.join(s.dir, name + '.ll')
         run(['llvm-link-14', '-S'] + lls + ['-o', linked])
@@ -85,7 +85,7 @@ class Builder:
         out = os.path.join(s.dir, unit + '.o')
         run(['g++', '-std=c++17', '-O1', '-g', '-DNDEBUG', '-DUSE_PPOLL=1', '-w', '-I', SRC, '-c', os.path.join(SRC, unit + '.cc'), '-o', out] + s.native_flags)
         return out
-    def native(s, name, harness, units, defines=(), stubs=True, iquote=False, sanitize=False, support=()):
+    def native(s, name, harness, units, defines=(), stubs=True, iquote=False, sanitize=False, support=(), stubs_defines=(), wrap=()):
         s.native_flags = ['-fsanitize=address,undefined', '-fno-sanitize-recover=undefined'] if sanitize else []
         tag = 'san_' if sanitize else ''
         todo = [u for u in units if tag + u not in s.obj]
@@ -103,6 +103,6 @@ class Builder:
             if x.endswith('.c'):
                 o = os.path.join(s.dir, tag + x + '.o'); run(['gcc', '-O1', '-g', '-w', '-c', os.path.join(SUPPORT, x), '-o', o] + s.native_flags); srcs.append(o)
             else: srcs.append(os.path.join(SUPPORT, x))
-        run(['g++', '-std=c++17', '-O1', '-g', '-DNDEBUG', '-DUSE_PPOLL=1', '-DVERIF_NATIVE', '-w'] + inc + ['-I', HARNESS] + ['-D' + d for d in defines]
-            + ['-DVERIF_REPO_SRC="%s"' % SRC, '-DVERIF_NINJA_CC="%s/ninja.cc"' % SRC] + srcs + [s.obj[tag + u] for u in units] + s.native_flags + ['-no-pie', '-Wl,--unresolved-symbols=ignore-all', '-Wl,--wrap=fopen,--wrap=fclose,--wrap=fwrite,--wrap=fprintf,--wrap=fflush,--wrap=setvbuf,--wrap=ftell,--wrap=fseek,--wrap=unlink,--wrap=rename,--wrap=truncate,--wrap=exit', '-o', exe])
+        run(['g++', '-std=c++17', '-O1', '-g', '-DNDEBUG', '-DUSE_PPOLL=1', '-DVERIF_NATIVE', '-w'] + inc + ['-I', HARNESS] + ['-D' + d for d in list(defines) + list(stubs_defines)]
+            + ['-DVERIF_REPO_SRC="%s"' % SRC, '-DVERIF_NINJA_CC="%s/ninja.cc"' % SRC] + srcs + [s.obj[tag + u] for u in units] + s.native_flags + ['-no-pie', '-Wl,--unresolved-symbols=ignore-all', '-Wl,--wrap=fopen,--wrap=fclose,--wrap=fwrite,--wrap=fprintf,--wrap=fflush,--wrap=setvbuf,--wrap=ftell,--wrap=fseek,--wrap=unlink,--wrap=rename,--wrap=truncate,--wrap=exit' + ''.join(',--wrap=' + w for w in wrap), '-o', exe])
         return exe
